@@ -107,6 +107,33 @@ fn au_ota(c: &UCtx, len: usize, rng: &mut Rng) -> Option<Vec<u8>> {
     Some([&mac[..], &m[..]].concat())
 }
 
+/// size of the message buffer of a receiver that does not size it after the attacker's input
+const FIXED: usize = 40;
+
+// ---- fixed-length items (MAC, signature, box tag, stream header) as they arrive from the wire: in a Vec of whatever length
+// the sender chose.  The message / ciphertext they belong to is fixed; the item is the attacker's input.
+const VMSG: &[u8] = b"a message the receiver already holds; the item that authenticates it is what arrives";
+fn v_auth(c: &UCtx) -> Vec<u8> { let mut t = [0u8; 32]; unsafe { so::crypto_auth(t.as_mut_ptr(), VMSG.as_ptr(), VMSG.len() as u64, c.key.as_ptr()) }; t.to_vec() }
+fn v_ota(c: &UCtx) -> Vec<u8> { let mut t = [0u8; 16]; unsafe { so::crypto_onetimeauth(t.as_mut_ptr(), VMSG.as_ptr(), VMSG.len() as u64, c.key.as_ptr()) }; t.to_vec() }
+fn v_sig(c: &UCtx) -> Vec<u8> { let mut t = [0u8; 64]; unsafe { so::crypto_sign_detached(t.as_mut_ptr(), std::ptr::null_mut(), VMSG.as_ptr(), VMSG.len() as u64, c.sign_sk.as_ptr()) }; t.to_vec() }
+fn v_sigph(c: &UCtx) -> Vec<u8> {
+    let mut t = [0u8; 64];
+    unsafe { let mut st: so::crypto_sign_state = std::mem::zeroed(); so::crypto_sign_init(&mut st); so::crypto_sign_update(&mut st, VMSG.as_ptr(), VMSG.len() as u64);
+        so::crypto_sign_final_create(&mut st, t.as_mut_ptr(), std::ptr::null_mut(), c.sign_sk.as_ptr()); }
+    t.to_vec()
+}
+fn v_sb(c: &UCtx) -> (Vec<u8>, Vec<u8>) {
+    let (mut t, mut d) = ([0u8; 16], vec![0u8; VMSG.len()]);
+    unsafe { so::crypto_secretbox_detached(d.as_mut_ptr(), t.as_mut_ptr(), VMSG.as_ptr(), VMSG.len() as u64, c.nonce.as_ptr(), c.key.as_ptr()) };
+    (t.to_vec(), d)
+}
+fn v_box(c: &UCtx) -> (Vec<u8>, Vec<u8>) {
+    let (mut t, mut d) = ([0u8; 16], vec![0u8; VMSG.len()]);
+    unsafe { so::crypto_box_detached(d.as_mut_ptr(), t.as_mut_ptr(), VMSG.as_ptr(), VMSG.len() as u64, c.nonce.as_ptr(), c.rpk.as_ptr(), c.ssk.as_ptr()) };
+    (t.to_vec(), d)
+}
+fn exactly(n: usize, l: usize, v: Vec<u8>) -> Option<Vec<u8>> { if l == n { Some(v) } else { None } }
+
 pub struct Entry {
     pub name: &'static str,
     /// bytes of a typed fixed-length prefix the harness splits off (signature / mac for detached forms)
@@ -218,6 +245,57 @@ fn entries() -> Vec<Entry> {
             run: |_c, x| { let h = x.len() / 3; r2b(dryoc::sign::SigningKeyPair::<StackByteArray<32>, StackByteArray<64>>::from_slices(&x[..h], &x[h..])) } },
         Entry { name: "StackByteArray::try_from", typed_prefix: 0, auth: |_c, l, r| if l == 32 { Some(r.bytes(32)) } else { None },
             run: |_c, x| r2b(StackByteArray::<32>::try_from(x)) },
+        // a receiver that opens into a message buffer of its own, fixed size (FIXED bytes): the attacker chooses the length of the
+        // box, the receiver does not; Ok or Err for every length, whether the box is shorter than, as long as, or longer than the buffer
+        Entry { name: "crypto_secretbox_open_easy (receiver buffer of fixed size)", typed_prefix: 0, auth: au_sb,
+            run: |c, x| { let mut m = vec![0u8; FIXED]; r2b(csb::crypto_secretbox_open_easy(&mut m, x, &c.nonce, &c.key)) } },
+        Entry { name: "crypto_secretbox_open_detached (receiver buffer of fixed size)", typed_prefix: 16, auth: |c, l, r| au_sb(c, l + 16, r),
+            run: |c, x| { let mut m = vec![0u8; FIXED]; r2b(csb::crypto_secretbox_open_detached(&mut m, &a16(x), &x[16..], &c.nonce, &c.key)) } },
+        Entry { name: "crypto_box_open_easy (receiver buffer of fixed size)", typed_prefix: 0, auth: au_box,
+            run: |c, x| { let mut m = vec![0u8; FIXED]; r2b(cb::crypto_box_open_easy(&mut m, x, &c.nonce, &c.spk, &c.rsk)) } },
+        Entry { name: "crypto_box_open_detached (receiver buffer of fixed size)", typed_prefix: 16, auth: |c, l, r| au_box(c, l + 16, r),
+            run: |c, x| { let mut m = vec![0u8; FIXED]; r2b(cb::crypto_box_open_detached(&mut m, &a16(x), &x[16..], &c.nonce, &c.spk, &c.rsk)) } },
+        Entry { name: "crypto_box_open_detached_afternm (receiver buffer of fixed size)", typed_prefix: 16, auth: |c, l, r| au_box(c, l + 16, r),
+            run: |c, x| { let mut m = vec![0u8; FIXED]; r2b(cb::crypto_box_open_detached_afternm(&mut m, &a16(x), &x[16..], &c.nonce, &c.pre_r)) } },
+        Entry { name: "crypto_box_seal_open (receiver buffer of fixed size)", typed_prefix: 0, auth: au_seal,
+            run: |c, x| { let mut m = vec![0u8; FIXED]; r2b(cb::crypto_box_seal_open(&mut m, x, &c.rpk, &c.rsk)) } },
+        Entry { name: "crypto_secretstream_pull (receiver buffer of fixed size)", typed_prefix: 0, auth: au_stream,
+            run: |c, x| { let (mut d, _) = init_pair(&c.key, &c.header, 1); let mut m = vec![0u8; FIXED]; let mut t = 0u8;
+                r2b(cs::crypto_secretstream_xchacha20poly1305_pull(&mut d, &mut m, &mut t, x, None)) } },
+        Entry { name: "crypto_sign_open (receiver buffer of fixed size)", typed_prefix: 0, auth: au_signed,
+            run: |c, x| { let mut m = vec![0u8; FIXED]; r2b(csg::crypto_sign_open(&mut m, x, &c.sign_pk)) } },
+        // the tag byte of a stream message is the sender's choice: converting any byte to the tag type is total
+        Entry { name: "secretstream Tag::from(u8), every byte", typed_prefix: 0, auth: |_c, l, r| Some(r.bytes(l)),
+            run: |_c, x| { let mut acc = 0u32; for b in x.iter().copied().chain(0u8..=255) { acc = acc.wrapping_add(dryoc::dryocstream::Tag::from(b).bits() as u32); } acc != u32::MAX } },
+        // fixed-length items held in a Vec (family "vecheld"): of the fixed length and genuine -> Ok; of any other length -> Err
+        Entry { name: "Auth::compute_and_verify (MAC held in a Vec)", typed_prefix: 0, auth: |c, l, _r| exactly(32, l, v_auth(c)),
+            run: |c, x| r2b(dryoc::auth::Auth::compute_and_verify(&x.to_vec(), c.key, &VMSG.to_vec())) },
+        Entry { name: "Auth::new/update/verify (MAC held in a Vec)", typed_prefix: 0, auth: |c, l, _r| exactly(32, l, v_auth(c)),
+            run: |c, x| { let mut a = dryoc::auth::Auth::new(c.key); a.update(&VMSG.to_vec()); r2b(a.verify(&x.to_vec())) } },
+        Entry { name: "OnetimeAuth::compute_and_verify (MAC held in a Vec)", typed_prefix: 0, auth: |c, l, _r| exactly(16, l, v_ota(c)),
+            run: |c, x| r2b(dryoc::onetimeauth::OnetimeAuth::compute_and_verify(&x.to_vec(), c.key, &VMSG.to_vec())) },
+        Entry { name: "OnetimeAuth::new/update/verify (MAC held in a Vec)", typed_prefix: 0, auth: |c, l, _r| exactly(16, l, v_ota(c)),
+            run: |c, x| { let mut a = dryoc::onetimeauth::OnetimeAuth::new(c.key); a.update(&VMSG.to_vec()); r2b(a.verify(&x.to_vec())) } },
+        Entry { name: "SignedMessage::from_parts+verify (signature held in a Vec)", typed_prefix: 0, auth: |c, l, _r| exactly(64, l, v_sig(c)),
+            run: |c, x| { let s: dryoc::sign::SignedMessage<Vec<u8>, Vec<u8>> = dryoc::sign::SignedMessage::from_parts(x.to_vec(), VMSG.to_vec()); r2b(s.verify(&c.sign_pk)) } },
+        Entry { name: "IncrementalSigner::verify (signature held in a Vec)", typed_prefix: 0, auth: |c, l, _r| exactly(64, l, v_sigph(c)),
+            run: |c, x| { let mut s = dryoc::sign::IncrementalSigner::new(); s.update(&VMSG.to_vec()); r2b(s.verify(&x.to_vec(), &c.sign_pk)) } },
+        Entry { name: "DryocSecretBox::from_parts+decrypt (tag held in a Vec)", typed_prefix: 0, auth: |c, l, _r| exactly(16, l, v_sb(c).0),
+            run: |c, x| { let b: dryoc::dryocsecretbox::DryocSecretBox<Vec<u8>, Vec<u8>> = dryoc::dryocsecretbox::DryocSecretBox::from_parts(x.to_vec(), v_sb(c).1);
+                let r: Result<Vec<u8>, _> = b.decrypt(&c.nonce, &c.key); r2b(r) } },
+        Entry { name: "DryocBox::from_parts+decrypt (tag held in a Vec)", typed_prefix: 0, auth: |c, l, _r| exactly(16, l, v_box(c).0),
+            run: |c, x| { let b: dryoc::dryocbox::DryocBox<StackByteArray<32>, Vec<u8>, Vec<u8>> = dryoc::dryocbox::DryocBox::from_parts(x.to_vec(), v_box(c).1, None);
+                let r: Result<Vec<u8>, _> = b.decrypt(&c.nonce, &c.spk, &c.rsk); r2b(r) } },
+        Entry { name: "DryocBox::from_parts+precalc_decrypt (tag held in a Vec)", typed_prefix: 0, auth: |c, l, _r| exactly(16, l, v_box(c).0),
+            run: |c, x| { let b: dryoc::dryocbox::DryocBox<StackByteArray<32>, Vec<u8>, Vec<u8>> = dryoc::dryocbox::DryocBox::from_parts(x.to_vec(), v_box(c).1, None);
+                let r: Result<Vec<u8>, _> = b.precalc_decrypt(&c.nonce, &c.pre_r); r2b(r) } },
+        Entry { name: "DryocBox::from_parts+unseal (tag held in a Vec)", typed_prefix: 0, auth: |_c, _l, _r| None,
+            run: |c, x| { let b: dryoc::dryocbox::DryocBox<StackByteArray<32>, Vec<u8>, Vec<u8>> = dryoc::dryocbox::DryocBox::from_parts(x.to_vec(), v_box(c).1, Some(StackByteArray::from(&c.spk)));
+                let kp: dryoc::dryocbox::KeyPair = dryoc::keypair::KeyPair { public_key: StackByteArray::from(&c.rpk), secret_key: StackByteArray::from(&c.rsk) };
+                let r: Result<Vec<u8>, _> = b.unseal(&kp); r2b(r) } },
+        Entry { name: "DryocStream::init_pull (header held in a Vec)", typed_prefix: 0, auth: |c, l, _r| exactly(24, l, c.header.to_vec()),
+            run: |c, x| { let (_, mut s) = init_pair(&c.key, &c.header, 1); let w = so_push(&mut s, VMSG, None, 0);
+                let mut p = DryocStream::init_pull(&StackByteArray::from(&c.key), &x.to_vec()); r2b(p.pull_to_vec(&w, None)) } },
     ]
 }
 
@@ -266,6 +344,9 @@ pub fn cmd_untrusted(args: &[String]) {
             let mut rng = Rng::new(seed ^ 0xc04);
             let c = mk(&mut rng);
             let nmax = 2 * (ovh + e.typed_prefix) + 64;
+            // Untrusted.tla, family "fixed": the receiver's buffer has its own size, an authentic box that does not fit may be refused
+            let vec_fam = table.as_array().map(|a| a.iter().any(|r| r["e"] == e.name && r["fam"] == "vecheld")).unwrap_or(false);
+            let fixed_fam = table.as_array().map(|a| a.iter().any(|r| r["e"] == e.name && r["fam"] == "fixed")).unwrap_or(false);
             for len in 0..=nmax {
                 unsafe { *progress = len as u32 };
                 for rr in 0..reps {
@@ -278,6 +359,8 @@ pub fn cmd_untrusted(args: &[String]) {
                         if !a.is_empty() { let mut m = a.clone(); let b = rng.below(8 * m.len() as u64) as usize; m[b / 8] ^= 1 << (b % 8); inputs.push(("valid_mutated", m)); }
                         inputs.push(("authentic", a.clone()));
                     }
+                    // the genuine item followed by further bytes (Untrusted.tla, family "vecheld")
+                    if vec_fam && len > ovh { if let Some(a) = (e.auth)(&c, ovh, &mut rng) { inputs.push(("authentic_extended", [&a[..], &rng.bytes(len - ovh)[..]].concat())); } }
                     for (class, x) in inputs {
                         if x.len() < e.typed_prefix { continue; }
                         r.evaluations += 1;
@@ -289,7 +372,11 @@ pub fn cmd_untrusted(args: &[String]) {
                             r.fail(&format!("{}: {} on untrusted input", e.name, out), json!({"entry": e.name, "len": len, "class": class, "info": info, "input": hex(&x[..x.len().min(96)]), "seed": seed}));
                         } else if ovh > 0 && len < ovh && out != "Err" {
                             r.fail(&format!("{}: input shorter than the overhead accepted", e.name), json!({"len": len, "class": class}));
-                        } else if class == "authentic" && out != "Ok" && !(key_fixed && false) {
+                        } else if vec_fam && len != ovh && out != "Err" {
+                            r.fail(&format!("{}: an item that does not have the fixed length is accepted", e.name), json!({"len": len, "class": class, "fixed_length": ovh, "seed": seed}));
+                        } else if fixed_fam && class == "authentic" && len.saturating_sub(ovh) == FIXED && out != "Ok" {
+                            r.fail(&format!("{}: authentic input that fits the receiver's buffer exactly is rejected", e.name), json!({"len": len, "seed": seed}));
+                        } else if class == "authentic" && out != "Ok" && !(key_fixed && false) && !fixed_fam {
                             r.fail(&format!("{}: authentic input rejected", e.name), json!({"len": len, "seed": seed}));
                         }
                     }
